@@ -91,7 +91,12 @@ def install_instance_wrappers(w, b):
         w.n_polls += 1
         k0 = b.mesh_size_integer
         fval0, fsd0 = b.fval, b.fsd
-        suff = float(np.asarray(b.sufficient_improvement).reshape(-1)[0])
+        # the documented forcing function, recomputed from the options and the mesh (not read back from the optimiser):
+        # tol_improvement * mesh_size**forcing_exponent, floored at tol_fun unless sloppy_improvement is off
+        suff = b.options["tol_improvement"] * (b.mesh_size ** (b.options["forcing_exponent"]))
+        if b.options["sloppy_improvement"]:
+            suff = np.maximum(suff, b.options["tol_fun"])
+        suff = float(np.asarray(suff).reshape(-1)[0])
         it = b.optim_state["iter"]
         w.poll_ctx = {"B": None, "used": set(), "n_polled": 0}
         w.ev("poll_begin", w.n_polls, int(k0), fval0)
@@ -646,16 +651,22 @@ def _c05(w, b, res, valid):
 
 def _c05_detection(w, b, res, valid):
     o0 = w.opts0
-    if o0["uncertainty_handling"] is not None or o0["specify_target_noise"]:
+    # noise handling not requested: unset, or explicitly False (neither documents "never test for noise")
+    if o0["uncertainty_handling"] not in (None, False) or o0["specify_target_noise"]:
         return
     if len(valid) < 2:
         return
     a, c = valid[0], valid[1]
+    lvl = int(b.optim_state["uncertainty_handling_level"])
     if not np.array_equal(a["x"], c["x"]):
-        w.violate("C05", "noise-test-not-at-x0", "the first two target calls are not at the same point")
+        # no second evaluation at the starting point: unobservable for a deterministic target, but a
+        # stochastic one (the simulator knows its noise) must not end up treated as deterministic
+        sigma = float((w.scn.get("noise") or {}).get("sigma", 0.0) or 0.0)
+        if w.noise_mode != "none" and sigma > 0 and lvl == 0:
+            w.violate("C05", "noise-not-detected", "a stochastic target was never evaluated twice at the starting point and is treated as deterministic",
+                      sigma=sigma)
         return
     diff = abs(a["y"] - c["y"])
-    lvl = int(b.optim_state["uncertainty_handling_level"])
     if diff > o0["tol_noise"] and lvl == 0:
         w.violate("C05", "noise-not-detected", "two evaluations at the start differ by more than tol_noise but the target is treated as deterministic", diff=diff)
     if diff == 0 and lvl != 0:
